@@ -98,6 +98,9 @@ def _add_class_shape(r, params):
       r.add_categorical_param(p[1], p[2])
 
 
+# shapes that exist for the in-domain clause only: ranges beyond float32 (the designers' float32 converters collapse them to
+# one point, so there is no stream for a seed to change and nothing for a restart to continue) and refused definitions
+C03_ONLY = {'hugelog', 'tinylog', 'baddefault', 'logzero'}
 CONTINUOUS = {'unit', 'neg', 'log', 'big'}
 LONG_SHAPES = {'mixed', 'neg', 'unit', 'cat'}
 
@@ -135,7 +138,7 @@ def algorithms():
   try:
     from vizier._src.algorithms.designers import harmonica
     # boolean spaces only, one suggestion at a time, regime change after 10 completed trials: its own schedule
-    algos['HARMONICA'] = dict(f=lambda p, s: harmonica.HarmonicaDesigner(p), randomised=False, restartable=False,
+    algos['HARMONICA'] = dict(f=lambda p, s: harmonica.HarmonicaDesigner(p), randomised=False, restartable=False, seedable=False,
                               only={'bin', 'bool', 'mixed', 'cat', 'single'}, fixed_sched=tuple(['S1', 'CF'] * 12 + ['S1', 'CI', 'S1']))
   except Exception:  # pylint: disable=broad-except
     pass
@@ -380,7 +383,11 @@ def collect(ctx, which):
     with_ci = [s for s in scheds if 'CI' in s]
     per = (3 if not ctx.thorough else 10)
     for aname, algo in sorted(algos.items()):
+      if which == 'C14' and algo.get('seedable') is False:
+        continue
       for shape in sorted(cat):
+        if which != 'C03' and shape in C03_ONLY:
+          continue
         if algo.get('only') and shape not in algo['only']:
           continue
         if shape in algo.get('skip', ()):
